@@ -17,9 +17,9 @@ from hypothesis import strategies as st
 
 from vf import core, rvdrive, toydrive
 from vf.core import Violation
-from vf.gen import asmgen, rvprog
+from vf.gen import asmgen, cachecfg, rvprog
 from vf.props import c06, c19
-from vf.ref import asm
+from vf.ref import asm, rv32
 
 ID = "C15"
 LEVEL = "exploration"
@@ -97,10 +97,22 @@ def check_text(case, stats):
 def check_run(case, stats):
     from architecture_simulator.simulation.runtime_errors import InstructionExecutionException
     mode = case["mode"]
-    sim = rvdrive.new_sim(mode)
+    sim = rvdrive.new_sim(mode, True, case.get("dcache"), case.get("icache"))
     rvdrive.load(sim, case["prog"], case.get("regs"), case.get("mem"))
     ref = rvdrive.ref_machine(case["prog"], case.get("regs"), case.get("mem"))
-    ref.run(case.get("max", 200))
+    if case.get("dcache"):
+        # behind a data cache an access that crosses a word boundary is a run-time failure as well (C03)
+        n = 0
+        while n < case.get("max", 200) and not ref.done() and ref.fault is None:
+            e = rv32.execute(ref.program[ref.pc], ref.pc, lambda r: ref.regs[r], ref.mem)
+            acc = e.load or e.store
+            if e.fault is None and acc and (acc[0] % 4) + acc[1] > 4:
+                ref.fault = (ref.pc, "access crosses a word boundary behind the data cache")
+                break
+            ref.step()
+            n += 1
+    else:
+        ref.run(case.get("max", 200))
     n = 0
     raised = None
     try:
@@ -123,7 +135,8 @@ def check_run(case, stats):
             raise Violation("fault-message", case, f"error_message {raised.error_message!r}")
     elif raised is not None and not (ref.done() is False):
         raise Violation("spurious-fault", case, f"{raised!r}")
-    stats.count(case, ref.fault is not None, {"run:" + mode, "fault" if ref.fault else "nofault"}, sample_tag="run:" + mode)
+    stats.count(case, ref.fault is not None, {"run:" + mode, "fault" if ref.fault else "nofault", "run:dcache" if case.get("dcache") else "run:flat"},
+                sample_tag="run:" + mode + (":dcache" if case.get("dcache") else ""))
 
 
 def check_toyrun(case, stats):
@@ -271,7 +284,24 @@ def raw_text(isa):
 
 
 def run_case():
-    return st.builds(lambda c, m: dict(c, kind="run", mode=m, max=150), rvprog.program_case(12), st.sampled_from(["single", "five"]))
+    return st.builds(lambda c, m, dc, ic: dict(c, kind="run", mode=m, max=150, dcache=dc, icache=ic), rvprog.program_case(12),
+                     st.sampled_from(["single", "five"]), st.one_of(st.none(), cachecfg.small_cache_config(), cachecfg.cache_config()),
+                     st.one_of(st.none(), st.none(), cachecfg.small_cache_config()))
+
+
+@st.composite
+def crossing_case(draw):
+    """Cache-friendly aligned program in which one load/store is then pushed off its alignment: behind a data cache the
+    access crosses a word boundary and must be reported like any other run-time failure."""
+    c = draw(rvprog.mem_heavy_case(10))
+    idx = [i for i, ins in enumerate(c["prog"]) if ins[0] in rv32.LOAD_OPS + rv32.STORE_OPS]
+    if idx:
+        i = draw(st.sampled_from(idx))
+        ins = list(c["prog"][i])
+        ins[3] += draw(st.integers(1, 3))
+        c["prog"][i] = ins
+    return dict(c, kind="run", mode=draw(st.sampled_from(["single", "five"])), max=150,
+                dcache=draw(st.one_of(cachecfg.small_cache_config(), cachecfg.cache_config())), icache=None)
 
 
 def corpus():
@@ -286,6 +316,9 @@ def corpus():
     out.append({"kind": "run", "mode": "five", "max": 50, "prog": [["addi", 1, 0, 5], ["lw", 2, 0, 0], ["addi", 3, 0, 1]], "regs": {}, "mem": {}})
     out.append({"kind": "run", "mode": "five", "max": 50, "prog": [["addi", 17, 0, 3], ["ecall"], ["addi", 3, 0, 1]], "regs": {}, "mem": {}})
     out.append({"kind": "run", "mode": "single", "max": 50, "prog": [["sw", 8, 1, -4]], "regs": {"8": B}, "mem": {}})
+    for m in ("single", "five"):
+        out.append({"kind": "run", "mode": m, "max": 50, "prog": [["addi", 1, 0, 5], ["sw", 8, 1, 0], ["lh", 2, 8, 3], ["addi", 3, 0, 1]], "regs": {"8": B},
+                    "mem": {}, "dcache": {"idx": 1, "blk": 1, "ways": 2, "type": "wt", "repl": "lru", "pen": 3}, "icache": None})
     return out
 
 
@@ -298,6 +331,7 @@ def shards(tier, seed):
         items.append({"what": "template", "isa": isa, "n": 900 if q else 15000, "seed": seed * 1000 + 40 + i})
         items.append({"what": "raw", "isa": isa, "n": 400 if q else 6000, "seed": seed * 1000 + 20 + i})
     items.append({"what": "run", "n": 300 if q else 5000, "seed": seed * 1000 + 30})
+    items.append({"what": "crossing", "n": 200 if q else 4000, "seed": seed * 1000 + 32})
     items.append({"what": "toyrun", "n": 100 if q else 2000, "seed": seed * 1000 + 31})
     if not q:
         more = []
@@ -322,6 +356,8 @@ def run_shard(item, stats):
         core.hyp_search(raw_text(item["isa"]), check, stats, item["n"], item["seed"], km)
     elif w == "run":
         core.hyp_search(run_case(), check, stats, item["n"], item["seed"], km)
+    elif w == "crossing":
+        core.hyp_search(crossing_case(), check, stats, item["n"], item["seed"], km)
     elif w == "toyrun":
         core.hyp_search(c06.program_case().map(lambda c: dict(c, kind="toyrun", via_text=False)), check, stats, item["n"], item["seed"], km)
     else:
